@@ -10,6 +10,7 @@ import PdfVerif.Lemmas.ImageName
 import PdfVerif.Lemmas.Inline
 import PdfVerif.Lemmas.InlineTotal
 import PdfVerif.Lemmas.InlineDict
+import PdfVerif.Lemmas.InlineAssemble
 
 namespace PdfVerif.Props.C18
 open PdfVerif PdfVerif.Image PdfVerif.Bmp PdfVerif.ImageName PdfVerif.Inline
@@ -514,11 +515,86 @@ theorem C18_eos_both_keys (f : Bytes) (rest : List Val) (d : Dict)
     intro v; simp [lookup]
   have l3 : ∀ v, lookup ((kF, v) :: d) kF = some v := by
     intro v; simp [lookup]
-  constructor <;> simp only [eosOf, getAny, l1, l2, l3]
+  have hk : keysEosFilter = [kF, kFilter] := rfl
+  constructor <;> simp only [eosOf, hk, getAny, l1, l2, l3]
 
 example : eosOf [(kFilter, .name nASCII85Decode)] = .ok [126, 62] ∧ eosOf [(kF, .name nA85)] = .ok [126, 62] ∧
     eosOf [(kFilter, .arr [.name nA85, .name [70, 108]])] = .ok [126, 62] ∧ eosOf [(kFilter, .name [70, 108])] = .ok [69, 73] := by
   refine ⟨?_, ?_, ?_, ?_⟩ <;> rfl
+
+/-! ## Round 6c — the `LTImage` fields of an inline image, for every dictionary -/
+
+/-- Table 93 semantics of one entry: the value under the abbreviated key if there is one, else under the full key. -/
+def pick (d : Dict) (abbr full : Bytes) : Option Val :=
+  match lookup d abbr with
+  | some v => some v
+  | none => lookup d full
+
+/-- **ltimage_fields.** For EVERY inline image dictionary (any keys, any values, both spellings present or not):
+    `do_EI` passes the image on iff a width (`W`, else `Width`) and a height (`H`, else `Height`) are present, and then
+    `LTImage` gets srcsize = those two values, bits = `BPC` else `BitsPerComponent` else 1, colorspace = the array's
+    elements, or the single value, or `[None]`, imagemask = `IM` else `ImageMask` else `None` — the abbreviated key wins
+    over the full one whenever both are present.  (The key tuples are the regenerated ones of `do_EI` / `LTImage.__init__`.) -/
+theorem C18_ltimage_fields (d : Dict) :
+    doEI d = match pick d kW kWidth, pick d kH kHeight with
+      | some w, some h =>
+        some { srcW := w, srcH := h,
+               bits := (pick d kBPC kBitsPerComponent).getD (.int 1),
+               colorspace := match pick d kCS kColorSpace with
+                 | some (.arr xs) => xs.map some
+                 | some v => [some v]
+                 | none => [none],
+               imagemask := pick d kIM kImageMask }
+      | _, _ => none := by
+  have hp : ∀ a f, getAny d [a, f] = pick d a f := by
+    intro a f
+    simp only [getAny, pick]
+    cases lookup d a <;> cases lookup d f <;> rfl
+  have e1 : doEIKeysWidth = [kW, kWidth] := rfl
+  have e2 : doEIKeysHeight = [kH, kHeight] := rfl
+  have e3 : keysWidth = [kW, kWidth] := rfl
+  have e4 : keysHeight = [kH, kHeight] := rfl
+  have e5 : keysBits = [kBPC, kBitsPerComponent] := rfl
+  have e6 : keysColorSpace = [kCS, kColorSpace] := rfl
+  have e7 : keysImageMask = [kIM, kImageMask] := rfl
+  unfold doEI
+  rw [e1, e2, e3, e4, e5, e6, e7]
+  simp only [hp]
+  cases pick d kW kWidth <;> cases pick d kH kHeight <;> rfl
+
+/-- Non-vacuity: both spellings of the width present (`/Width 9 /W 4`): the abbreviation wins; no BPC: 1; `/CS [/I /RGB 1 s]`. -/
+example : doEI [(kWidth, .int 9), (kW, .int 4), (kHeight, .int 2), (kCS, .arr [.name [73], .name nRGB, .int 1, .str])] =
+    some { srcW := .int 4, srcH := .int 2, bits := .int 1,
+           colorspace := [some (.name [73]), some (.name nRGB), some (.int 1), some .str], imagemask := none } := by
+  rfl
+
+/-- **assemble_last_wins.** For EVERY run of `/key value` operands between `BI` and `ID` (any keys — abbreviated, full,
+    unknown, repeated — and any values): the dictionary `do_keyword` builds exists, and a key's value is that of the
+    LAST pair carrying the key; so an entry of table 93 resolves to the last value under the abbreviated key if that
+    key occurs at all, else to the last value under the full key. -/
+theorem C18_assemble_last_wins (ps : List (Bytes × Val)) :
+    ∃ d, assemble (objsOf ps) = .ok d ∧ (∀ k, lookup d k = lastVal ps k) ∧
+      ∀ a f, pick d a f = match lastVal ps a with
+        | some v => some v
+        | none => lastVal ps f := by
+  refine ⟨ps.foldl (fun d p => dictSet d p.1 p.2) [], ?_, ?_, ?_⟩
+  · unfold assemble
+    rw [length_objsOf]
+    have : (2 * ps.length % 2 != 0) = false := by simp
+    rw [this]
+    simp only [Bool.false_eq_true, if_false]
+    exact assembleFrom_objsOf ps []
+  · intro k
+    rw [lookup_foldl]
+    cases lastVal ps k <;> rfl
+  · intro a f
+    simp only [pick, lookup_foldl, lookup_nil]
+    cases lastVal ps a <;> cases lastVal ps f <;> rfl
+
+/-- Non-vacuity: `/W 1 /Width 9 /W 4 /H 2 /Height 7 /H 3` — the image is 4 × 3. -/
+example : (assemble (objsOf [(kW, .int 1), (kWidth, .int 9), (kW, .int 4), (kH, .int 2), (kHeight, .int 7), (kH, .int 3)])).toOption.bind
+      (fun d => (doEI d).map (fun f => (f.srcW, f.srcH))) = some (.int 4, .int 3) := by
+  rfl
 
 /-! ## Round 6 — the branch selection of `export_image` as a decision table -/
 
